@@ -22,15 +22,15 @@ import (
 var spSig = []byte("SP800-155 Event3")
 
 type mSP struct {
-	PMID                        uint32
-	GUID                        [16]byte // RFC 4122 order
-	PMStr, PModel, PVer, FMStr  string
-	FMID                        uint32
-	FVer                        string
-	RLT                         uint32
-	RL                          []byte
-	PCLT                        uint32
-	PCL                         []byte
+	PMID                       uint32
+	GUID                       [16]byte // RFC 4122 order
+	PMStr, PModel, PVer, FMStr string
+	FMID                       uint32
+	FVer                       string
+	RLT                        uint32
+	RL                         []byte
+	PCLT                       uint32
+	PCL                        []byte
 }
 
 // mData: SP != nil => SP800-155 Event3, otherwise opaque bytes (nil == empty == "no event").
